@@ -569,7 +569,7 @@ func H_C06_store() {
 // H_C06_conc2: every pair of concurrent writers (Compute(+1), Set, Delete) on one TypedValue is serialised:
 // afterwards the cache agrees with the raw store and the result matches one of the two serial orders.
 //
-//verif:h prop=C06 preempt=2/3 cover=done runs=3000000 timeout=250/900
+//verif:h prop=C06 preempt=2/3 cover=done runs=3000000 timeout=900/900
 func H_C06_conc2() {
 	st := &c06Store{}
 	cd := &c06Codec{st: st}
